@@ -191,12 +191,12 @@ def read(self, size=-1):
              "None if (te == 'chunked' or cl is None) else "
              "((str_to_int(cl.strip()) if str_to_int(cl.strip()) > 0 else 0) if plain_int(cl.strip()) else 0)")
     reg.contract(
-        "werkzeug/_internal.py:_plain_int", prop="C09,C07", params={"value": "str"}, returns="int",
+        "werkzeug/_internal.py:_plain_int", prop="C09,C07", replay="pure", params={"value": "str"}, returns="int",
         ensures=["plain_int(value.strip())", "implies(len(value.strip()) <= int_max_digits(), result == str_to_int(value.strip()))"],
         raises={"ValueError": "not plain_int(value.strip()) or len(value.strip()) > int_max_digits()"},
     )
     reg.contract(
-        "werkzeug/sansio/utils.py:get_content_length", prop="C09,C07",
+        "werkzeug/sansio/utils.py:get_content_length", prop="C09,C07", replay="pure",
         params={"http_content_length": "Optional[str]", "http_transfer_encoding": "Optional[str]"},
         returns="Optional[int]",
         ensures=["(result is None) == (http_transfer_encoding == 'chunked' or http_content_length is None)",
